@@ -199,8 +199,8 @@ class Case:
         self.engine, self.payload, self.go, self.model, self.spec, self.origin = engine, payload, go, model, spec, origin
 
     def as_dict(self):
-        return {"engine": self.engine, "payload": self.payload, "go": self.go, "model": self.model,
-                "spec": self.spec, "origin": self.origin}
+        return {"engine": self.engine, "payload": self.payload, "readable": pretty(self.payload)[:1000], "go": self.go,
+                "model": self.model, "spec": self.spec, "origin": self.origin}
 
 
 def run_cases(ctx, engine, n=0, seed=1, cases_file=None, origin="generated", tag="g", extra=None):
@@ -231,7 +231,7 @@ def run_cases(ctx, engine, n=0, seed=1, cases_file=None, origin="generated", tag
     leans = open(out).read().split("\n")
     res = []
     for i, r in enumerate(reqs):
-        if not r:
+        if not r or r.startswith("init\t"):
             continue
         payload = r.split("\t", 1)[1] if "\t" in r else r
         go = gos[i] if i < len(gos) else "<missing>"
@@ -242,6 +242,47 @@ def run_cases(ctx, engine, n=0, seed=1, cases_file=None, origin="generated", tag
             model, spec = ln, "-"
         res.append(Case(engine, payload, go, model, spec, origin))
     return res, stats
+
+
+def pretty(payload):
+    """human-readable rendering of the protocol terms in a payload (for evidence samples and replays)"""
+    def tok(t):
+        try:
+            if t == "N":
+                return "nil"
+            if t == "T":
+                return "true"
+            if t == "F":
+                return "false"
+            if re.fullmatch(r"I-?\d+", t):
+                return t[1:]
+            if re.fullmatch(r"S[0-9a-f]*", t):
+                s = bytes.fromhex(t[1:]).decode("utf-8", "replace")
+                return (":" + s[1:]) if s.startswith("\u029e") else json.dumps(s, ensure_ascii=False)
+            if re.fullmatch(r"Y[0-9a-f]+", t):
+                return bytes.fromhex(t[1:]).decode("utf-8", "replace")
+        except Exception:
+            pass
+        return t
+    out, toks, i = [], payload.split(" "), 0
+    closers = []
+    while i < len(toks):
+        t = toks[i]
+        if t == "(" and i + 1 < len(toks) and toks[i + 1] in ("L", "V", "M", "H"):
+            o, c = {"L": ("(", ")"), "V": ("[", "]"), "M": ("{", "}"), "H": ("#{", "}")}[toks[i + 1]]
+            out.append(o)
+            closers.append(c)
+            i += 2
+            continue
+        if t == ")" and closers:
+            out.append(closers.pop())
+        else:
+            out.append(tok(t))
+        i += 1
+    s = " ".join(out)
+    for a, b in (("( ", "("), (" )", ")"), ("[ ", "["), (" ]", "]"), ("{ ", "{"), (" }", "}")):
+        s = s.replace(a, b)
+    return s
 
 
 def _prop_fields(obs):
@@ -586,7 +627,8 @@ def write_evidence(ctx, cases, stats_all, violations, corr, known_hit):
     samples = []
     step = max(1, len(cases) // 6)
     for c in cases[::step][:6]:
-        samples.append({"engine": c.engine, "case": c.payload[:400], "go": c.go[:200], "model": c.model[:200], "spec": c.spec[:200]})
+        samples.append({"engine": c.engine, "case": c.payload[:400], "readable": pretty(c.payload)[:400],
+                        "go": pretty(c.go)[:200], "model": pretty(c.model)[:200], "spec": c.spec[:200]})
     for n in audited[:40]:
         samples.append({"theorem": n, "axioms": ctx.audit[n]})
     top = sorted(classes.items(), key=lambda kv: -kv[1])[:60]
